@@ -81,6 +81,64 @@ def scan_cached_pages(rep):
                        "proved" if not bad else "refuted", "syntactic", detail="; ".join(bad)[:400])
 
 
+INIT_FUNCS = {"core:Wtp.__init__", "core:Wtp.create_db", "core:Wtp.init_data_folder",
+              "core:Wtp.init_namespace_data", "core:Wtp.init_localization_data"}
+JUSTIFIED = {
+    "lua": "Lua runtime, created lazily by the first #invoke (Lua side: unverified)",
+    "lua_invoke": "Lua entry point, re-fetched on every top-level invocation (Lua side: unverified)",
+    "lua_reset_env": "Lua entry point, re-fetched on every top-level invocation (Lua side: unverified)",
+    "lua_clear_loaddata_cache": "set once by initialize_lua; called by start_page",
+    "begline_enabled": "changed only by BegLineDisableManager.__enter__/__exit__, which restore it on both exits of the with block",
+    "begline_disable_counter": "changed only by BegLineDisableManager.__enter__/__exit__ (+1/-1 around a with block)",
+    "wikidata_session": "network session cache; not observable in parse/expand results",
+}
+
+
+def scan_field_lifecycle(rep):
+    """every context field that is written after construction is re-established by start_page (per page) or by
+    parse_encoded (per parse), or is on the justified list above"""
+    mod = loader.module("core")
+    cls = mod.top["Wtp"]
+    slots = []
+    for n in cls.body:
+        if isinstance(n, ast.Assign) and loader.norm(n.targets[0]) == "__slots__":
+            slots = [e.value for e in n.value.elts]
+    writers = {s_: set() for s_ in slots}
+    for m in loader.package_modules():
+        md = loader.module(m)
+        for qual, fn in loader.all_functions(md):
+            for n in effects._own_nodes(fn):
+                if isinstance(n, ast.Attribute) and n.attr in writers:
+                    par = getattr(n, "_parent", None)
+                    gp = getattr(par, "_parent", None)
+                    w = isinstance(n.ctx, (ast.Store, ast.Del)) or \
+                        (isinstance(par, ast.Attribute) and par.value is n and isinstance(gp, ast.Call) and gp.func is par
+                         and par.attr in effects.MUTATORS) or \
+                        (isinstance(par, ast.Subscript) and par.value is n and isinstance(par.ctx, (ast.Store, ast.Del))) or \
+                        (isinstance(par, ast.AugAssign) and par.target is n)
+                    if w:
+                        writers[n.attr].add(f"{m}:{qual}")
+    bad = []
+    classes = {"config": 0, "per-page": 0, "per-parse": 0, "justified": 0}
+    for f, ws in writers.items():
+        later = ws - INIT_FUNCS
+        if not later:
+            classes["config"] += 1
+        elif "core:Wtp.start_page" in ws:
+            classes["per-page"] += 1
+        elif "parser:parse_encoded" in ws:
+            classes["per-parse"] += 1
+        elif f in JUSTIFIED:
+            classes["justified"] += 1
+        else:
+            bad.append(f"{f}: written by {sorted(later)} but re-established neither by start_page nor by parse_encoded")
+    rep.add_obligation("core:Wtp#frame#every-field-written-after-construction-is-re-established-per-page-or-per-parse",
+                       "frame", "proved" if slots and not bad else "refuted", "syntactic",
+                       detail="; ".join(bad)[:500] or f"{len(slots)} fields: {classes}")
+    for f, why in JUSTIFIED.items():
+        rep.assumptions.append(f"context field `{f}` carries state across pages by design: {why}")
+
+
 def main(tier):
     rep = check.Report("C09", tier, "other")
     reg = vx.Registry()
@@ -90,6 +148,7 @@ def main(tier):
     rep.add_static(check.run_contracts(cs, reg, 20000 if tier == "quick" else 120000))
     scan_module_state(rep)
     scan_cached_pages(rep)
+    scan_field_lifecycle(rep)
     try:
         rep.bounded = check.run_repo_py("bounded/c09_run.py", {"tier": tier, "seed": rep.seed}, timeout=6000)
     except Exception as ex:
